@@ -238,6 +238,7 @@ func main() {
 		counters: map[string]int64{}, samples: map[string][]interface{}{}, nviol: map[string]int{}, notes: map[string]string{},
 		skipTo: *skipTo,
 	}
+	setTick(c)
 	for _, kv := range strings.Split(*params, ",") {
 		if i := strings.IndexByte(kv, '='); i > 0 {
 			c.Params[kv[:i]] = kv[i+1:]
